@@ -161,6 +161,13 @@ def run(ctx):
         # its last commit - closing a handle leaves the log files that hold the last batches when their enactment fails (a close only
         # reports what the workers stored), it is the next open that replays them or fails on them
         mv = mg.call_sites('migration::move_column')
+        n_mv = len(mv)
+        if not mv:
+            # the swap of the column files may sit in a private helper of migrate: its call stands for the moves
+            for fb in fam:
+                if fb is not mg and fb.call_sites('migration::move_column') and mg.call_sites(fb.path):
+                    mv += mg.call_sites(fb.path)
+                    n_mv += len(fb.call_sites('migration::move_column'))
         crs = mg.call_sites('db::Db::commit_raw') + [x for fb in fam if fb is not mg for x in mg.call_sites(fb.path) if fb.call_sites('db::Db::commit_raw')]
         bad = None
         for c in crs:
@@ -169,7 +176,7 @@ def run(ctx):
                     w = mg.find_path(list(mg.succ(c)), {m}, removed=set(oc))
                     if w:
                         bad = bad or (c, m, w)
-        ctx.ob('5m0 in-place-anchors', 'anchor', mg.path, 'the in-place branch moves column files and commits into the destination before', len(mv) >= 2 and len(crs) >= 1, 'moves %s commits %s' % (mv, crs))
+        ctx.ob('5m0 in-place-anchors', 'anchor', mg.path, 'the in-place branch moves column files and commits into the destination before', n_mv >= 2 and len(crs) >= 1, 'moves %s commits %s' % (mv, crs))
         ctx.ob('5m destination-reopened-before-its-files-are-moved', 'K2-order', mg.path,
                'between the last commit into the destination and the move of its column files over the source there is an open of the destination (which replays and removes its logs, or fails)',
                bad is None, '' if bad is None else 'files moved after a commit without a re-open: ' + lib.short_path(mg, [bad[0]] + bad[2]))
